@@ -170,3 +170,127 @@ Definition predict_agg (mode : obs_mode) (has_obs : bool) (a : agg_arg) (rows : 
 
 (* totals of a column over a frame *)
 Definition qsum (l : list Q) : Q := fold_right (fun x acc => Qred (x + acc)) 0 l.
+
+(* ---------------------------------------------------------------- the source's tables, interpreted
+   harness/translate_billing_agg.py reads, with `ast`, from BillingModel.predict / BillingWeightedModel.predict
+     * the if/elif chain on `aggregation` (which test, on what literal, which resample rule it selects, what the else raises)
+     * the block under `if agg is not None:` (which column of df_res is reduced by which function, in the order of the
+       pd.concat list; `observed` guarded by `"observed" in df_res.columns`)
+   and writes them to Generated/BillingAggGen.v as values of the types below.  The interpreters below give those tables
+   a meaning; Proofs/BillingAggGenProofs.v proves that the tables of the source are the model's tables and hence that the
+   interpreted source tables compute exactly [parse_arg] and [aggregate], for every argument and every frame. *)
+Inductive aggfn := FSum | FMean | FFirst | FRss | FOther.
+(* (column of df_res, reducer, aggregated only when the column is present) in the order of the returned columns *)
+Definition agg_table := list (string * aggfn * bool).
+
+Definition model_agg_table : agg_table :=
+  [ ("season", FFirst, false); ("temperature", FMean, false); ("observed", FSum, true); ("predicted", FSum, false);
+    ("predicted_unc", FRss, false); ("heating_load", FSum, false); ("cooling_load", FSum, false);
+    ("model_split", FFirst, false); ("model_type", FFirst, false) ]%string.
+
+Definition table_fn (t : agg_table) (c : string) : option aggfn :=
+  match find (fun e => String.eqb (fst (fst e)) c) t with Some e => Some (snd (fst e)) | None => None end.
+
+(* a numeric column reduced by f (FRss: kept squared, as everywhere in this model); None = not a reducer of this model *)
+Definition num_agg (f : aggfn) (l : list cell) : option cell :=
+  match f with
+  | FSum => Some (Some (nansum l))
+  | FMean => Some (nanmean l)
+  | FRss => Some (Some (sumsq l))
+  | FFirst => Some (first_some l)
+  | FOther => None
+  end.
+Definition lab_agg (f : aggfn) (l : list (option Z)) : option (option Z) :=
+  match f with FFirst => Some (first_some l) | _ => None end.
+
+Definition obind {B C : Type} (x : option B) (f : B -> option C) : option C :=
+  match x with Some b => f b | None => None end.
+
+Definition col_num (t : agg_table) (c : string) (l : list cell) : option cell :=
+  obind (table_fn t c) (fun f => num_agg f l).
+Definition col_lab (t : agg_table) (c : string) (l : list (option Z)) : option (option Z) :=
+  obind (table_fn t c) (fun f => lab_agg f l).
+
+Definition agg_row_by (t : agg_table) (k m0 j : Z) (g : list drow) : option arow :=
+  obind (col_num t "temperature" (map d_temp g)) (fun vt =>
+  obind (col_num t "observed" (map d_obs g)) (fun vo =>
+  obind (col_num t "predicted" (map d_pred g)) (fun vp =>
+  obind (col_num t "predicted_unc" (map d_unc g)) (fun vu =>
+  obind (col_num t "heating_load" (map d_heat g)) (fun vh =>
+  obind (col_num t "cooling_load" (map d_cool g)) (fun vc =>
+  obind (col_lab t "season" (map d_season g)) (fun ls =>
+  obind (col_lab t "model_split" (map d_split g)) (fun lp =>
+  obind (col_lab t "model_type" (map d_mtype g)) (fun lm =>
+  Some (mkarow (m0 + k * j)%Z vt (cval vo) (cval vp) (cval vu) (cval vh) (cval vc) ls lp lm)))))))))).
+
+Fixpoint sequence {B : Type} (l : list (option B)) : option (list B) :=
+  match l with
+  | [] => Some []
+  | x :: l' => obind x (fun b => obind (sequence l') (fun bs => Some (b :: bs)))
+  end.
+
+Definition aggregate_by (t : agg_table) (k : Z) (rows : list drow) : option (list arow) :=
+  match min_month rows, max_month rows with
+  | Some m0, Some m1 => sequence (map (fun j => agg_row_by t k m0 j (days_of k m0 j rows)) (bins k m0 m1))
+  | _, _ => Some []
+  end.
+
+(* ---- the if/elif chain on `aggregation` ---- *)
+Inductive arg_test := TIsNone | TLowerEq (s : string) | TEq (s : string).   (* is None | .lower() == s | == s *)
+Inductive arg_res := RNoAgg | RFreq (s : string).                            (* agg = None | agg = "<pandas rule>" *)
+Definition arg_chain := list (arg_test * arg_res).
+
+Definition model_arg_chain : arg_chain :=
+  [ (TIsNone, RNoAgg); (TLowerEq "none", RNoAgg); (TEq "monthly", RFreq "MS"); (TEq "bimonthly", RFreq "2MS") ]%string.
+
+(* pandas offset aliases this model gives a meaning to: month-start bins of 1 and 2 months *)
+Definition freq_months (s : string) : option Z :=
+  if String.eqb s "MS" then Some 1%Z else if String.eqb s "2MS" then Some 2%Z else None.
+
+Inductive test_out := Hit | Miss | Raises (e : err).
+Definition eval_test (t : arg_test) (a : agg_arg) : test_out :=
+  match t, a with
+  | TIsNone, ArgNone => Hit
+  | TIsNone, _ => Miss
+  | TLowerEq s, ArgStr x => if String.eqb (lower x) s then Hit else Miss
+  | TLowerEq _, _ => Raises AttributeErr               (* None.lower() / (5).lower() *)
+  | TEq s, ArgStr x => if String.eqb x s then Hit else Miss
+  | TEq _, _ => Miss
+  end.
+
+(* None = the chain selects a resample rule outside this model *)
+Fixpoint parse_arg_by (chain : arg_chain) (else_raises : err) (a : agg_arg) : option parsed :=
+  match chain with
+  | [] => Some (Bad else_raises)
+  | (t, r) :: rest =>
+      match eval_test t a with
+      | Hit => match r with
+               | RNoAgg => Some NoAgg
+               | RFreq s => match freq_months s with Some k => Some (Months k) | None => None end
+               end
+      | Miss => parse_arg_by rest else_raises a
+      | Raises e => Some (Bad e)
+      end
+  end.
+
+(* how the source treats reporting data without usage, read off its table: the observed column is aggregated
+   unconditionally (obs flag false: df_res["observed"] raises KeyError) or only when present *)
+Definition table_obs_mode (t : agg_table) : obs_mode :=
+  match find (fun e => String.eqb (fst (fst e)) "observed") t with
+  | Some (_, _, true) => ObsOptional
+  | _ => ObsRequired
+  end.
+
+(* predict(..., aggregation=a) after _predict, driven by the source's tables only; None = outside this model *)
+Definition predict_agg_by (chain : arg_chain) (else_raises : err) (t : agg_table) (has_obs : bool) (a : agg_arg)
+           (rows : list drow) : option outcome :=
+  match parse_arg_by chain else_raises a with
+  | None => None
+  | Some NoAgg => Some (Daily rows)
+  | Some (Bad e) => Some (Rejected e)
+  | Some (Months k) =>
+      match table_obs_mode t, has_obs with
+      | ObsRequired, false => Some (Rejected KeyErr)
+      | _, _ => match aggregate_by t k rows with Some out => Some (Aggregated k out) | None => None end
+      end
+  end.
